@@ -242,7 +242,10 @@ CLAIMED = {
              "Dict key and value structures between locals in ANY declaration order are pairwise disjoint and temporaries lie below all of them; tie: "
              "programs declaring Dicts, locals and hash-map variables in random order, every local, member and hash variable written once in random order "
              "(hash-variable writes take temporaries in between), optionally update(): real key / value offsets must equal the model's and every variable "
-             "and the stored map entry must hold what was written.",
+             "and the stored map entry must hold what was written. Bit-field variables sharing a byte of a packet (fmt = (pos, bits)) have their own model (Gen/BitField.v: the mask expression of Memory._set on "
+             "unbounded integers) and theorems C04_bitfield_store_bits / _other_unchanged / _reads_back / _stays_byte / C04_flag_store_bits: a store of ANY value changes "
+             "no bit outside its field; tied by executing generated XDP programs with fields sharing bytes (constants that fit and that do not, run-time values, "
+             "reads) on a packet and on its complement and comparing every byte with the model.",
         note=TB + "Partial: packet variables are C07's; hash-map helper calls are served by coq/Corr/C09.v (kernel-validated by random call sequences); temporaries "
              "of expression evaluation are covered by execution only. Known finding: subprogram locals share their bytes (golden-pinned).",
         technique="Coq proof by induction over declaration lists + layout comparison + execution of real generated programs in a kernel-validated ISA model",
